@@ -142,6 +142,16 @@ Section Sem.
     | VNode n i n' : s_init s v = None -> s_prod s v = Some (n, i) ->
                      s_init s' (sg v) = None -> s_prod s' (sg v) = Some (n', i) -> (sg v = v \/ ~ formal (sg v)) ->
                      node_rel sg n n' -> (forall w, In (Some w) (n_ins n) -> L w) -> vcase v
+    (* the same node with TRAILING outputs dropped (optional outputs): its remaining results are unchanged *)
+    | VNodeTrim n i n' : s_init s v = None -> s_prod s v = Some (n, i) ->
+                     s_init s' (sg v) = None -> s_prod s' (sg v) = Some (n', i) -> (sg v = v \/ ~ formal (sg v)) ->
+                     n_op n' = n_op n -> n_attrs n' = n_attrs n -> ins_rel sg (n_ins n) (n_ins n') ->
+                     (forall w, In (Some w) (n_ins n) -> L w) ->
+                     s_func s (n_op n) = None -> (i < length (n_outs n'))%nat ->
+                     (forall attrs subs ins outs, interp (n_op n) attrs subs ins (length (n_outs n)) = Some outs ->
+                        exists outs', interp (n_op n) attrs subs ins (length (n_outs n')) = Some outs'
+                                      /\ forall j, (j < length (n_outs n'))%nat -> nth_error outs' j = nth_error outs j) ->
+                     vcase v
     | VIdent n x : s_init s v = None -> s_prod s v = Some (n, O) -> is_identity_op (n_op n) = true ->
                    n_ins n = [Some x] -> length (n_outs n) = 1%nat -> s_func s (n_op n) = None ->
                    L x -> sg v = sg x -> vcase v
@@ -149,7 +159,17 @@ Section Sem.
                    s_func s (n_op n) = None ->
                    (forall aenv subs, interp (n_op n) (resolve aenv (n_attrs n)) subs [] 1%nat = Some [tensor_val t]) ->
                    s_init s' (sg v) = Some t -> ~ formal (sg v) -> vcase v
-    | VNone : s_init s v = None -> s_prod s v = None -> vcase v.
+    | VNone : s_init s v = None -> s_prod s v = None -> vcase v
+    (* the same node with attributes the operator does not distinguish (schema defaults made explicit) *)
+    | VNodeAttrs n i n' : s_init s v = None -> s_prod s v = Some (n, i) ->
+                     s_init s' (sg v) = None -> s_prod s' (sg v) = Some (n', i) -> (sg v = v \/ ~ formal (sg v)) ->
+                     n_op n' = n_op n -> length (n_outs n') = length (n_outs n) -> ins_rel sg (n_ins n) (n_ins n') ->
+                     (forall w, In (Some w) (n_ins n) -> L w) ->
+                     s_func s (n_op n) = None ->
+                     (forall aenv, attr_graphs (resolve aenv (n_attrs n')) = attr_graphs (resolve aenv (n_attrs n))) ->
+                     (forall aenv subs ins k, interp (n_op n) (resolve aenv (n_attrs n')) subs ins k
+                                              = interp (n_op n) (resolve aenv (n_attrs n)) subs ins k) ->
+                     vcase v.
 
     Record Sim : Prop := {
       sim_fix : forall v, formal v -> sg v = v;
@@ -185,8 +205,11 @@ Section Sem.
       cbn [den] in E.
       destruct (alookup env v) as [t|] eqn:Eenv.
       { assert (Hfv : formal v) by (eapply He; eauto). rewrite (sim_fix HS v Hfv). cbn [den]. rewrite Eenv. exact E. }
-      destruct (sim_case HS v HL) as [t Hi Hi' Hd | n i n' Hi Hp Hi' Hp' Hd Hrel Hin | n x Hi Hp Hid Hins Hlen Hfn HLx Hsg
-                                      | n t Hi Hp Hins Hlen Hfn Hc Hi' Hnf | Hi Hp].
+      destruct (sim_case HS v HL) as [t Hi Hi' Hd | n i n' Hi Hp Hi' Hp' Hd Hrel Hin
+                                      | n i n' Hi Hp Hi' Hp' Hd Hop Hat [c [k [k' [Hc Hc']]]] Hin Hfn Hlt Htrim
+                                      | n x Hi Hp Hid Hins Hlen Hfn HLx Hsg
+                                      | n t Hi Hp Hins Hlen Hfn Hc Hi' Hnf | Hi Hp
+                                      | n i n' Hi Hp Hi' Hp' Hd Hop Hno [c [k [k' [Hc Hc']]]] Hin Hfn Hag Hat].
       - (* initializer *)
         rewrite Hi in E. cbn [den]. rewrite (env_none env v He Eenv Hd), Hi'. exact E.
       - (* node mapped to a node *)
@@ -220,6 +243,32 @@ Section Sem.
           destruct (sim_graph_formal HS _ _ Eg) as [Hgf HgL].
           eapply map_opt_impl; [|exact Hr]. intros x y Hx Hy. apply IH; [apply env_ok_bind; assumption | | exact Hy].
           rewrite Forall_forall in HgL. apply HgL. exact Hx.
+      - (* node with trailing outputs dropped *)
+        rewrite Hi, Hp in E. cbn [den]. rewrite (env_none env v He Eenv Hd), Hi', Hp'.
+        destruct (map_opt _ (n_ins n)) as [tins|] eqn:Eins; [|discriminate].
+        assert (Emap : map_opt (inval (D s' f aenv env)) (map (option_map sg) (n_ins n)) = Some tins).
+        { rewrite map_opt_map. eapply map_opt_impl; [|exact Eins].
+          intros [w|] y Hw Hy; simpl; [apply IH; auto | exact Hy]. }
+        rewrite Hc, map_opt_app in Emap.
+        destruct (map_opt _ c) as [tc|] eqn:Ec; [|discriminate].
+        rewrite (map_opt_repeat _ None absent k eq_refl) in Emap. injection Emap as <-.
+        rewrite Hc', map_opt_app, Ec, (map_opt_repeat _ None absent k' eq_refl).
+        rewrite Hop, Hat. rewrite Hfn in E. rewrite (sim_func_none HS _ Hfn).
+        destruct (interp (n_op n) _ _ (tc ++ repeat absent k) _) as [outs|] eqn:Ei; [|discriminate].
+        rewrite interp_repeat_absent in Ei. rewrite interp_repeat_absent.
+        assert (Ei' : interp (n_op n) (resolve aenv (n_attrs n))
+                        (map (fun g args => match s_graph s' g with
+                                            | None => None
+                                            | Some gr => map_opt (D s' f aenv (bind T absent (g_ins gr) args ++ env)) (g_outs gr)
+                                            end) (attr_graphs (resolve aenv (n_attrs n)))) tc (length (n_outs n)) = Some outs).
+        { eapply interp_mono; [|exact Ei].
+          apply Forall2_map_same. intros g _ args r' Hr.
+          destruct (s_graph s g) as [gr|] eqn:Eg; [|discriminate].
+          destruct (sim_graph HS _ _ Eg) as [gr' [Eg' [Hgi Hgo]]]. rewrite Eg', Hgi, Hgo, map_opt_map.
+          destruct (sim_graph_formal HS _ _ Eg) as [Hgf HgL].
+          eapply map_opt_impl; [|exact Hr]. intros x y Hx Hy. apply IH; [apply env_ok_bind; assumption | | exact Hy].
+          rewrite Forall_forall in HgL. apply HgL. exact Hx. }
+        destruct (Htrim _ _ _ _ Ei') as [outs' [Eo Hnth]]. rewrite Eo, (Hnth i Hlt). exact E.
       - (* eliminated Identity *)
         rewrite Hi, Hp, Hins, Hfn, Hlen in E. simpl in E.
         destruct (D s f aenv env x) as [tx|] eqn:Ex; [|discriminate].
@@ -229,6 +278,26 @@ Section Sem.
         rewrite Hi, Hp, Hins, Hfn, Hlen in E. simpl in E. rewrite Hc in E. simpl in E.
         cbn [den]. rewrite (env_none env v He Eenv (or_intror Hnf)), Hi'. exact E.
       - rewrite Hi, Hp in E. discriminate.
+      - (* node with equivalent attributes *)
+        rewrite Hi, Hp in E. cbn [den]. rewrite (env_none env v He Eenv Hd), Hi', Hp'.
+        destruct (map_opt _ (n_ins n)) as [tins|] eqn:Eins; [|discriminate].
+        assert (Emap : map_opt (inval (D s' f aenv env)) (map (option_map sg) (n_ins n)) = Some tins).
+        { rewrite map_opt_map. eapply map_opt_impl; [|exact Eins].
+          intros [w|] y Hw Hy; simpl; [apply IH; auto | exact Hy]. }
+        rewrite Hc, map_opt_app in Emap.
+        destruct (map_opt _ c) as [tc|] eqn:Ec; [|discriminate].
+        rewrite (map_opt_repeat _ None absent k eq_refl) in Emap. injection Emap as <-.
+        rewrite Hc', map_opt_app, Ec, (map_opt_repeat _ None absent k' eq_refl).
+        rewrite Hop, Hno. rewrite Hfn in E. rewrite (sim_func_none HS _ Hfn). rewrite Hag, Hat.
+        destruct (interp (n_op n) _ _ (tc ++ repeat absent k) _) as [outs|] eqn:Ei; [|discriminate].
+        rewrite interp_repeat_absent in Ei. rewrite interp_repeat_absent.
+        erewrite interp_mono; [exact E| |exact Ei].
+        apply Forall2_map_same. intros g _ args r' Hr.
+        destruct (s_graph s g) as [gr|] eqn:Eg; [|discriminate].
+        destruct (sim_graph HS _ _ Eg) as [gr' [Eg' [Hgi Hgo]]]. rewrite Eg', Hgi, Hgo, map_opt_map.
+        destruct (sim_graph_formal HS _ _ Eg) as [Hgf HgL].
+        eapply map_opt_impl; [|exact Hr]. intros x y Hx Hy. apply IH; [apply env_ok_bind; assumption | | exact Hy].
+        rewrite Forall_forall in HgL. apply HgL. exact Hx.
     Qed.
   End Sim.
 End Sem.
